@@ -29,7 +29,7 @@ def cells(tier, seed):
 
 
 def explore_opts(params, tier):
-    return {"timeout_s": 5.0 if tier == "quick" else 120.0, "max_paths": 8, "norm_first": True, "path_budget_s": 120.0,
+    return {"timeout_s": 5.0 if tier == "quick" else 30.0, "max_paths": 8, "norm_first": True, "path_budget_s": 120.0,
             "engine_opts": {"cut_sites": ("lanczos_tridiag",)}}
 
 
